@@ -146,6 +146,7 @@ class Runner:
 F2_KEY = "queue-before-loop-not-woken"
 F3_KEY = "quit-before-loop-reset"
 F4_KEY = "quit-wakeup-after-loop-destroyed"
+OBS_QUEUE_AFTER_FUNCTOR_QUIT = "~queue-wakeup-after-functor-quit"   # '~' = observation outside the property text
 
 
 def events_of(run):
@@ -281,12 +282,20 @@ def oracle_quit(case, run, kind):
     destroy_ret = [pos for pos, ti, w in evs if w[:2] == ["ret", "destroy"]]
 
     def uaf_key():
-        # F-4's signature: a quit() (the destructor's or the user's) continues on the destroyed loop
+        """F-4's signature: a quit() (the destructor's or the user's) continues on the destroyed loop.
+        Observation, not a violation of C05's text (key '~...'): a queueInLoop()/runInLoop() continues on a
+        loop that was ended by a quit() issued from one of its own functors / callbacks -- nobody is
+        destroying an EventLoopThread there; the submitter of a quitting task races with that task."""
         u = next(((pos, ti, w) for pos, ti, w in evs if w and w[0] == "UAF"), None)
         if u is None:
             return None
         pos, ti, w = u
-        return F4_KEY if "quit()" in w else None
+        if "quit()" in w:
+            return F4_KEY
+        loop_thread = 1 if kind == "elt" else 0
+        if "queueInLoop()" in w and any(p < pos and t == loop_thread and x[:2] == ["call", "quit"] for p, t, x in evs):
+            return OBS_QUEUE_AFTER_FUNCTOR_QUIT
+        return None
 
     if run.crash:
         if run.uaf or "use-after" in run.crash:
